@@ -572,7 +572,7 @@ def cases_from_file(rng, n):
     out = []
     prof = gen.Profile(max_tracks=3, max_groups=3, max_events=2, max_tempo=2, meta_fields=0.1, unknown_sections=0.4, garbage=0.05)
     ins, dif = list(Instrument), list(Difficulty)
-    for k_ in range(max(8, n // 2)):
+    for k_ in range(min(max(8, n // 2), 1500)):
         src = gen.rand_src(rng, prof)
         text = gen.render(src, rng, prof).text
         r = rng.random()
